@@ -70,11 +70,19 @@ Qed.
 (* ---------- the pool invariant ---------- *)
 
 Definition pinv (p : pool) : Prop :=
-  NoDup (p_current p) /\ p_extra p = extras p /\ extras p <= p_limit p /\ p_limit p <= u64_max.
+  NoDup (p_current p) /\ p_extra p = cnt (p_allowed p) (p_current p) /\
+  p_extra p <= p_limit p /\ p_limit p <= u64_max.
+
+Lemma pinv_mk a lim ex cur : NoDup cur -> ex = cnt a cur -> ex <= lim -> lim <= u64_max ->
+  pinv {| p_allowed := a; p_limit := lim; p_extra := ex; p_current := cur |}.
+Proof. unfold pinv. cbn [p_allowed p_limit p_extra p_current]. tauto. Qed.
+
+Lemma pinv_extras p : pinv p -> p_extra p = extras p /\ extras p <= p_limit p.
+Proof. intros (_ & H1 & H2 & _). rewrite extras_cnt, <- H1. tauto. Qed.
 
 Lemma pool_new_inv allowed limit : 0 <= limit <= u64_max -> pinv (pool_new allowed limit).
 Proof.
-  intros H. unfold pinv, pool_new, extras. cbn. split; [constructor|]. lia.
+  intros H. unfold pool_new. apply pinv_mk; [constructor|reflexivity|lia|lia].
 Qed.
 
 (* insert: complete case analysis *)
@@ -85,29 +93,23 @@ Lemma insert_cases k p : pinv p ->
    exists p', insert k p = Ok p' /\ pinv p' /\ p_current p' = k :: p_current p /\
               p_allowed p' = p_allowed p /\ p_limit p' = p_limit p).
 Proof.
-  intros (Hnd & Hex & Hle & Hmax). unfold insert.
+  intros Hi. destruct (pinv_extras p Hi) as (Hee & _). rewrite <- Hee.
+  destruct Hi as (Hnd & Hex & Hle & Hmax). unfold insert.
   destruct (memz k (p_current p)) eqn:Ec.
   { left. apply memz_spec in Ec. tauto. }
   apply memz_false in Ec. right.
   destruct (memz k (p_allowed p)) eqn:Ea; cbn [negb].
-  - apply memz_spec in Ea. right. split; [exact Ec|]. split; [tauto|].
-    eexists. split; [reflexivity|]. cbn. split; [|tauto].
-    unfold pinv, extras. cbn [p_current p_allowed p_extra p_limit].
-    fold (nallowed (p_allowed p)). fold (cnt (p_allowed p) (k :: p_current p)).
-    rewrite cnt_cons. unfold nallowed at 1. apply memz_spec in Ea. rewrite Ea. cbn [negb].
-    fold (cnt (p_allowed p) (p_current p)). rewrite <- extras_cnt.
-    split; [constructor; assumption|]. lia.
-  - apply memz_false in Ea. rewrite Hex.
-    destruct (p_limit p <=? extras p) eqn:El.
-    + left. apply Z.leb_le in El. tauto.
+  - right. split; [exact Ec|]. split; [apply memz_spec in Ea; tauto|].
+    eexists. split; [reflexivity|]. cbn [p_current p_allowed p_limit]. split; [|tauto].
+    apply pinv_mk; [constructor; assumption| |exact Hle|exact Hmax].
+    rewrite cnt_cons. unfold nallowed. rewrite Ea. cbn [negb]. lia.
+  - destruct (p_limit p <=? p_extra p) eqn:El.
+    + left. apply Z.leb_le in El. apply memz_false in Ea. tauto.
     + apply Z.leb_gt in El. right. split; [exact Ec|]. split; [tauto|].
-      assert (u64_max <? extras p + 1 = false) as -> by (apply Z.ltb_ge; lia).
-      eexists. split; [reflexivity|]. cbn. split; [|tauto].
-      unfold pinv, extras. cbn [p_current p_allowed p_extra p_limit].
-      fold (nallowed (p_allowed p)). fold (cnt (p_allowed p) (k :: p_current p)).
-      rewrite cnt_cons. unfold nallowed at 1. apply memz_false in Ea. rewrite Ea. cbn [negb].
-      fold (cnt (p_allowed p) (p_current p)). rewrite <- !extras_cnt.
-      split; [constructor; assumption|]. lia.
+      assert (u64_max <? p_extra p + 1 = false) as -> by (apply Z.ltb_ge; lia).
+      eexists. split; [reflexivity|]. cbn [p_current p_allowed p_limit]. split; [|tauto].
+      apply pinv_mk; [constructor; assumption| |lia|exact Hmax].
+      rewrite cnt_cons. unfold nallowed. rewrite Ea. cbn [negb]. lia.
 Qed.
 
 Lemma remove_cases k p : pinv p ->
@@ -115,26 +117,19 @@ Lemma remove_cases k p : pinv p ->
              p_allowed p' = p_allowed p /\ p_limit p' = p_limit p /\
              (~ In k (p_current p) -> p' = p).
 Proof.
-  intros (Hnd & Hex & Hle & Hmax). unfold remove.
+  intros Hi. pose proof Hi as (Hnd & Hex & Hle & Hmax). unfold remove.
   destruct (memz k (p_current p)) eqn:Ec; cbn [negb].
-  2:{ apply memz_false in Ec. exists p. rewrite (removez_absent _ _ Ec). unfold pinv. tauto. }
+  2:{ apply memz_false in Ec. exists p. rewrite (removez_absent _ _ Ec). tauto. }
   apply memz_spec in Ec.
   pose proof (cnt_removez (p_allowed p) k (p_current p) Hnd Ec) as Hc.
-  destruct (memz k (p_allowed p)) eqn:Ea; cbn [negb].
-  - eexists. split; [reflexivity|]. cbn. split; [|tauto].
-    unfold pinv, extras. cbn [p_current p_allowed p_extra p_limit].
-    fold (nallowed (p_allowed p)). fold (cnt (p_allowed p) (removez k (p_current p))).
-    rewrite Hc. unfold nallowed at 1. rewrite Ea. cbn [negb].
-    rewrite <- extras_cnt. split; [apply removez_nodup, Hnd|]. lia.
-  - assert (1 <= extras p) as Hpos.
-    { rewrite extras_cnt. pose proof (cnt_nonneg (p_allowed p) (removez k (p_current p))).
-      unfold nallowed at 1 in Hc. rewrite Ea in Hc. cbn [negb] in Hc. lia. }
-    assert (p_extra p - 1 <? 0 = false) as -> by (apply Z.ltb_ge; lia).
-    eexists. split; [reflexivity|]. cbn. split; [|tauto].
-    unfold pinv, extras. cbn [p_current p_allowed p_extra p_limit].
-    fold (nallowed (p_allowed p)). fold (cnt (p_allowed p) (removez k (p_current p))).
-    rewrite Hc. unfold nallowed at 1. rewrite Ea. cbn [negb].
-    rewrite <- extras_cnt. split; [apply removez_nodup, Hnd|]. lia.
+  pose proof (cnt_nonneg (p_allowed p) (removez k (p_current p))) as Hnn.
+  unfold nallowed in Hc.
+  destruct (memz k (p_allowed p)) eqn:Ea; cbn [negb] in *.
+  - eexists. split; [reflexivity|]. cbn [p_current p_allowed p_limit]. split; [|tauto].
+    apply pinv_mk; [apply removez_nodup, Hnd|lia|exact Hle|exact Hmax].
+  - assert (p_extra p - 1 <? 0 = false) as -> by (apply Z.ltb_ge; lia).
+    eexists. split; [reflexivity|]. cbn [p_current p_allowed p_limit]. split; [|tauto].
+    apply pinv_mk; [apply removez_nodup, Hnd|lia|lia|exact Hmax].
 Qed.
 
 Lemma pstep_inv p o : pinv p ->
@@ -253,11 +248,73 @@ Proof.
     destruct (IH g1 Hg1) as (g2 & Hr & Hg2 & Ha2 & Hl2 & Hlive2).
     exists g2. split; [exact Hr|]. split; [exact Hg2|]. rewrite Ha2, Hl2. split; [exact Ha|split; [exact Hl|]].
     intros c k H. destruct (Hlive2 c k H) as [H'|H']; [|right; right; exact H'].
-    destruct (Hlive c k H') as [H''|H'']; [left; exact H''|right; left; symmetry; exact H''].
+    destruct (Hlive c k H') as [H''|H'']; [left; exact H''|right; left; exact H''].
 Qed.
 
 Lemma ginit_inv allowed limit : 0 <= limit <= u64_max -> ginv (ginit allowed limit).
 Proof.
   intros H. unfold ginv, ginit. cbn [g_pool g_live map]. split; [apply pool_new_inv, H|].
   split; [constructor|]. split; [constructor|]. intros k. cbn. tauto.
+Qed.
+
+(* ---------- statements used by Properties/C12.v ---------- *)
+
+Lemma pool_inv_thm allowed limit ops : 0 <= limit <= u64_max ->
+  let p := prun (pool_new allowed limit) ops in
+  NoDup (p_current p) /\ p_extra p = extras p /\ extras p <= limit /\
+  p_allowed p = allowed /\ p_limit p = limit.
+Proof.
+  intros H p. destruct (prun_inv ops _ (pool_new_inv allowed limit H)) as (Hi & Ha & Hl).
+  fold p in Hi, Ha, Hl. destruct (pinv_extras p Hi) as (H1 & H2). destruct Hi as (Hnd & _).
+  cbn in Ha, Hl. rewrite Hl in H2. tauto.
+Qed.
+
+Lemma pool_step_thm allowed limit ops : 0 <= limit <= u64_max ->
+  let p := prun (pool_new allowed limit) ops in
+  forall k,
+    (insert k p = Err EExists <-> In k (p_current p)) /\
+    (insert k p = Err ELimit <-> ~ In k (p_current p) /\ ~ In k allowed /\ limit <= extras p) /\
+    (forall x, insert k p <> Panic x) /\
+    (forall p', insert k p = Ok p' -> p_current p' = k :: p_current p) /\
+    (exists p', remove k p = Ok p' /\ p_current p' = removez k (p_current p) /\
+                (~ In k (p_current p) -> p' = p)).
+Proof.
+  intros H p k. destruct (prun_inv ops _ (pool_new_inv allowed limit H)) as (Hi & Ha & Hl).
+  fold p in Hi, Ha, Hl. cbn in Ha, Hl. rewrite <- Ha, <- Hl.
+  destruct (remove_cases k p Hi) as (pr & Hr & _ & Hrc & _ & _ & Hrn).
+  destruct (insert_cases k p Hi) as [(H1 & E)|[(H1 & H2 & H3 & E)|(H1 & H2 & p' & E & _ & H4 & _)]]; rewrite E.
+  - repeat split; try tauto; try discriminate; try (intros (? & _); tauto).
+    exists pr. tauto.
+  - repeat split; try tauto; try discriminate. exists pr. tauto.
+  - repeat split; try discriminate; try tauto.
+    + intros (_ & Hna & Hlim). destruct H2; [tauto|lia].
+    + intros p'' [= <-]. exact H4.
+    + exists pr. tauto.
+Qed.
+
+Lemma one_per_direction_thm allowed limit ops : 0 <= limit <= u64_max ->
+  exists g, grun (ginit allowed limit) ops = Ok g /\
+    NoDup (map fst (g_live g)) /\ NoDup (map snd (g_live g)) /\
+    (forall k, In k (p_current (g_pool g)) <-> In k (map snd (g_live g))) /\
+    NoDup (p_current (g_pool g)) /\ extras (g_pool g) <= limit /\
+    p_allowed (g_pool g) = allowed /\
+    (forall c k, In (c, k) (g_live g) -> In (GConn c (Ok k)) ops).
+Proof.
+  intros H. destruct (grun_inv ops _ (ginit_inv allowed limit H)) as (g & Hr & (Hp & Hf & Hs & Hiff) & Ha & Hl & Hlive).
+  exists g. split; [exact Hr|]. cbn in Ha, Hl. destruct (pinv_extras _ Hp) as (_ & He). rewrite Hl in He.
+  destruct Hp as (Hnd & _). repeat split; try assumption; try apply Hiff.
+  intros c k Hin. destruct (Hlive c k Hin) as [[]|H']. exact H'.
+Qed.
+
+Lemma members_only_thm committee ops :
+  exists g, grun (ginit committee 0) ops = Ok g /\
+    (forall k, In k (p_current (g_pool g)) -> In k committee) /\
+    (forall c k, In (c, k) (g_live g) -> In k committee).
+Proof.
+  assert (0 <= 0 <= u64_max) as H by (unfold u64_max; lia).
+  destruct (one_per_direction_thm committee 0 ops H) as (g & Hr & _ & _ & Hiff & _ & He & Ha & _).
+  exists g. split; [exact Hr|].
+  assert (Hm : forall k, In k (p_current (g_pool g)) -> In k committee).
+  { rewrite extras_cnt, Ha in He. exact (cnt_zero _ _ He). }
+  split; [exact Hm|]. intros c k Hin. apply Hm, Hiff. apply in_map_iff. exists (c, k). tauto.
 Qed.
